@@ -18,7 +18,9 @@ import (
 	"testing"
 
 	"google.golang.org/grpc"
+	"google.golang.org/grpc/codes"
 	"google.golang.org/grpc/metadata"
+	"google.golang.org/grpc/status"
 	"google.golang.org/protobuf/encoding/protowire"
 	"google.golang.org/protobuf/proto"
 	"pgregory.net/rapid"
@@ -43,6 +45,13 @@ type c07Case struct {
 	NFrames   int    `json:",omitempty"`
 	FrameSize int    `json:",omitempty"`
 	Carrier   string `json:",omitempty"`
+	// side roundtrip: the library's own encoders and decoders, both directions: the client sends messages with
+	// payloads of Sizes bytes over a bidi stream through a real server of form Carrier, the handler takes them all
+	// and sends each one back (FinalCode: the status it then returns); what each side decoded is compared byte for
+	// byte with what the other encoded
+	Sizes     []int `json:",omitempty"`
+	FinalCode int   `json:",omitempty"`
+	FinalLen  int   `json:",omitempty"` // length of the status message
 }
 
 // endReader yields b and then err (io.EOF or io.ErrUnexpectedEOF).
@@ -461,7 +470,119 @@ func propC07EchoEarly(c c07Case) *Outcome {
 	return o
 }
 
+// propC07RoundTrip: "yields exactly the framed messages that were encoded", with the encoder the library's own.
+func propC07RoundTrip(c c07Case) *Outcome {
+	o := &Outcome{NonTrivial: len(c.Sizes) > 0}
+	o.class("side=%s", c.Side)
+	mk := func(i, n int) []byte {
+		b := make([]byte, max(0, n))
+		for j := range b {
+			b[j] = byte(i*31 + j*7 + j>>8)
+		}
+		return b
+	}
+	var mu sync.Mutex
+	var srvGot [][]byte
+	var srvFinal error
+	svc := &Service{Stream: func(kind string, stream grpc.ServerStream) error {
+		var got [][]byte
+		for {
+			m := new(pb.Message)
+			err := stream.RecvMsg(m)
+			if err != nil {
+				mu.Lock()
+				srvGot, srvFinal = got, err
+				mu.Unlock()
+				if err != io.EOF {
+					return err
+				}
+				break
+			}
+			got = append(got, m.Payload)
+		}
+		for i, p := range got {
+			if err := stream.SendMsg(&pb.Message{Payload: p, Count: int32(i)}); err != nil {
+				return err
+			}
+		}
+		if c.FinalCode != 0 {
+			return status.Error(codes.Code(c.FinalCode), strings.Repeat("m", c.FinalLen))
+		}
+		return nil
+	}}
+	srv := httptest.NewServer(newHTTPHandlerBase(c.Carrier, "", newServiceDesc(), svc))
+	defer srv.Close()
+	u, _ := url.Parse(srv.URL)
+	ch := &httpgrpc.Channel{Transport: srv.Client().Transport, BaseURL: u}
+	var cerr error
+	var cliGot [][]byte
+	stall := guard("call", func() {
+		ctx, cancel := context.WithCancel(context.Background())
+		defer cancel()
+		cs, err := ch.NewStream(ctx, streamDescOf(kBidi), mBidi)
+		if err != nil {
+			cerr = err
+			return
+		}
+		for i, n := range c.Sizes {
+			if cerr = cs.SendMsg(&pb.Message{Payload: mk(i, n)}); cerr != nil {
+				return
+			}
+		}
+		cs.CloseSend()
+		for {
+			m := new(pb.Message)
+			if cerr = cs.RecvMsg(m); cerr != nil {
+				return
+			}
+			cliGot = append(cliGot, m.Payload)
+		}
+	})
+	if stall != "" {
+		return o.failf("roundtrip: %s", firstLine(stall))
+	}
+	mu.Lock()
+	defer mu.Unlock()
+	lens := func(l [][]byte) []int {
+		var r []int
+		for _, b := range l {
+			r = append(r, len(b))
+		}
+		return r
+	}
+	o.Observed = map[string]interface{}{"sizes": c.Sizes, "handler_got": lens(srvGot), "handler_final": errStr(srvFinal), "client_got": lens(cliGot), "client_final": errStr(cerr)}
+	for i, p := range srvGot {
+		if i >= len(c.Sizes) || !bytes.Equal(p, mk(i, c.Sizes[i])) {
+			return o.failf("roundtrip (%s): the handler's message #%d (%d bytes) is not the client's message #%d (payload sizes sent: %v)", c.Carrier, i, len(p), i, c.Sizes)
+		}
+	}
+	if srvFinal == io.EOF && len(srvGot) != len(c.Sizes) {
+		return o.failf("roundtrip (%s): the client sent %d messages, the handler got %d and then a clean end of stream", c.Carrier, len(c.Sizes), len(srvGot))
+	}
+	for i, p := range cliGot {
+		if i >= len(srvGot) || !bytes.Equal(p, srvGot[i]) {
+			return o.failf("roundtrip (%s): the client's reply #%d (%d bytes) is not what the handler sent as #%d (payload sizes: %v)", c.Carrier, i, len(p), i, c.Sizes)
+		}
+	}
+	if srvFinal == io.EOF {
+		if c.FinalCode == 0 && (cerr != io.EOF || len(cliGot) != len(c.Sizes)) {
+			return o.failf("roundtrip (%s): %d messages sent, echoed and answered with success: the client got %d replies and %v (payload sizes: %v)", c.Carrier, len(c.Sizes), len(cliGot), cerr, c.Sizes)
+		}
+		if c.FinalCode != 0 {
+			if st, _ := status.FromError(cerr); cerr == io.EOF || cerr == nil || int(st.Code()) != c.FinalCode || st.Message() != strings.Repeat("m", c.FinalLen) {
+				return o.failf("roundtrip (%s): the handler returned code %d with a %d-byte message after echoing %d messages: the client got %d replies and %v", c.Carrier, c.FinalCode, c.FinalLen, len(c.Sizes), len(cliGot), firstLine(errStr(cerr)))
+			}
+		}
+	} else if cerr == io.EOF {
+		return o.failf("roundtrip (%s): the handler's receive failed (%v) and the call ended with success", c.Carrier, srvFinal)
+	}
+	return o
+}
+
 func propC07(c c07Case) *Outcome {
+	if c.Side == "roundtrip" {
+		return propC07RoundTrip(c)
+	}
 	if c.Side == "server-echo-early" {
 		return propC07EchoEarly(c)
 	}
@@ -677,6 +798,27 @@ func genC07(t *rapid.T) c07Case {
 		}
 		return c
 	}
+	if rapid.IntRange(0, 19).Draw(t, "roundtrip") == 0 {
+		c = c07Case{Side: "roundtrip", Carrier: rapid.SampledFrom([]string{cHTTP, cHTTPMux, cHTTPPer}).Draw(t, "rtcarrier")}
+		// payload sizes: anything small, and runs around the powers of two (where buffers and fast paths change over)
+		n := rapid.IntRange(1, 24).Draw(t, "rtn")
+		base := 1 << rapid.IntRange(3, 16).Draw(t, "rtpow")
+		start := rapid.IntRange(-12, 2).Draw(t, "rtstart")
+		sweep := rapid.IntRange(0, 2).Draw(t, "rtsweep") > 0
+		for i := 0; i < n; i++ {
+			if sweep {
+				c.Sizes = append(c.Sizes, max(0, base+start+i%14))
+			} else {
+				c.Sizes = append(c.Sizes, rapid.IntRange(0, 1200).Draw(t, "rtsize"))
+			}
+		}
+		// the trailer goes through the same encoder: its size is moved by the length of the status message
+		c.FinalCode = rapid.SampledFrom([]int{0, 0, 1, 2, 3, 5, 6, 7, 8, 9, 10, 11, 12, 13, 14, 15, 16}).Draw(t, "rtfinal")
+		if c.FinalCode != 0 {
+			c.FinalLen = rapid.SampledFrom([]int{0, 5, 100, 240, 250, 260, 490, 495, 500, 501, 502, 503, 504, 505, 506, 507, 508, 509, 510, 515, 1015, 1020, 1025}).Draw(t, "rtfinallen")
+		}
+		return c
+	}
 	if rapid.IntRange(0, 149).Draw(t, "echoearly") == 0 {
 		return c07Case{Side: "server-echo-early", Carrier: rapid.SampledFrom([]string{cHTTP, cHTTPMux, cHTTPPer}).Draw(t, "eecarrier"),
 			NFrames: rapid.IntRange(2, 6).Draw(t, "eeframes"), FrameSize: rapid.SampledFrom([]int{0, 5, 300, 5000}).Draw(t, "eesize")}
@@ -787,7 +929,7 @@ func recordReplyBody(s *Script) []byte {
 
 func init() { registerReplay("C07", propC07) }
 
-const c07Rule = "bodies fed to the client stream decoder (server-streaming and single-response) and to the unary client (whole body = the message; cut at a field boundary or anywhere, ending with the transport's io.ErrUnexpectedEOF or cleanly) through a replaying RoundTripper (which may also fail the round trip outright: bare io.EOF, unexpected EOF, reset), unary requests announcing more than they deliver (up to 2^63-1), request streams of 0.3 .. 1 MiB through a real net/http server to a handler that sends its headers before it receives and to the server stream decoder through httptest (a bidi method and a method that takes exactly one request): rapid byte strings, hostile 4-byte prefixes (0, -1, MinInt32, MaxInt32, limit, limit+-1), valid encodings of generated message lists + trailer mutated by truncation / bit flip / spliced hostile prefix / trailing garbage / missing trailer, " +
+const c07Rule = "bodies fed to the client stream decoder (server-streaming and single-response) and to the unary client (whole body = the message; cut at a field boundary or anywhere, ending with the transport's io.ErrUnexpectedEOF or cleanly) through a replaying RoundTripper (which may also fail the round trip outright: bare io.EOF, unexpected EOF, reset), unary requests announcing more than they deliver (up to 2^63-1), request streams of 0.3 .. 1 MiB through a real net/http server to a handler that sends its headers before it receives and to the server stream decoder through httptest (a bidi method and a method that takes exactly one request), round trips through the library's own encoders and decoders in both directions over a real server (1..24 messages with payload sizes 0..1200 or running across a power of two, echoed, then success or a status whose message moves the size of the trailer frame: both sides compare byte for byte): rapid byte strings, hostile 4-byte prefixes (0, -1, MinInt32, MaxInt32, limit, limit+-1), valid encodings of generated message lists + trailer mutated by truncation / bit flip / spliced hostile prefix / trailing garbage / missing trailer, " +
 	"and every truncation offset of 8 recorded real replies, each ending cleanly (io.EOF) and abruptly (io.ErrUnexpectedEOF), delivered whole or at most 1..7 bytes per Read; oracle = independent reference decoder (delivered messages are an intact prefix of the reference frames; success iff the reference sees a complete OK reply; reference error => SUT error), no panic, TotalAlloc delta <= 100 MiB limit + 8*len(body) + 6 MiB; " +
 	"non-trivial = body with >=1 complete frame that is not a complete valid OK stream, or an oversized prefix, or a cut inside a frame; distinct by case hash"
 
